@@ -113,6 +113,15 @@ func runGroup(t *testing.T, group string) {
 			inputs = keep
 		}
 		inputs = append(inputs, e.must...)
+		// nested formats: one length-prefixed element emptied / shortened /
+		// lengthened with every enclosing prefix corrected (never thinned out)
+		if e.fixed == 0 {
+			for _, s := range e.seeds {
+				rw := lib.LenPrefixRewrites(s, lib.Scale(96, 600))
+				lib.CountN("len-prefix-rewrites", len(rw))
+				inputs = append(inputs, rw...)
+			}
+		}
 		var panics int64
 		par := lib.Par
 		if e.serial {
